@@ -55,6 +55,19 @@ def vmean (v : Vec) : Rat := vsum v / (v.length : Rat)
 
 def rabs (x : Rat) : Rat := if x < 0 then -x else x
 
+/-- the dtypes `astype` is exercised with: the floating types keep the values (float32 up to rounding, outside the
+model), `int` truncates towards zero -/
+inductive CastTo
+  | float64 | float32 | int
+deriving DecidableEq, Repr
+
+/-- `numpy`'s cast of a float to an integer type: truncation towards zero -/
+def rtrunc (x : Rat) : Rat := ((x.num.tdiv (x.den : Int) : Int) : Rat)
+
+def rcast (dt : CastTo) (x : Rat) : Rat := match dt with | .int => rtrunc x | _ => x
+
+def vcast (dt : CastTo) (v : Vec) : Vec := v.map (rcast dt)
+
 /-! ### matrices (the scipy / numpy substrate, by entries) -/
 
 structure Mat where
@@ -107,6 +120,9 @@ def block (b c : Mat) : Mat :=
 def rowSums (a : Mat) : Vec := a.mulVec (ones a.nCol)
 /-- entrywise absolute value -/
 def abs (a : Mat) : Mat := ofFn a.nRow a.nCol fun i j => rabs (a.get i j)
+
+/-- `a.astype(dtype)`: the stored entries are cast one by one -/
+def cast (dt : CastTo) (a : Mat) : Mat := ⟨a.nRow, a.nCol, a.rows.map fun r => r.map (rcast dt)⟩
 
 /-- no non-zero entry (`check_format` refuses a matrix with `nnz == 0`; matrices whose stored entries are all
     explicit zeros are not sent by the harness) -/
@@ -216,7 +232,10 @@ def rightDot (s : SLR) (m : Mat) : Except PyErr SLR := do
   let ts ← mapSnd? m.transpose.mulVec? s.tuples
   init p ts
 
-def astype (s : SLR) : SLR := s
+/-- `astype(dtype)`: the sparse part and every low-rank vector are cast (repaired code: a new SparseLR is returned,
+    the operand keeps its type) -/
+def astype (dt : CastTo) (s : SLR) : SLR :=
+  ⟨s.sparse.cast dt, s.tuples.map fun t => (vcast dt t.1, vcast dt t.2)⟩
 
 /-- `_matvec`, branch `len(matrix.shape) == 1` -/
 def matvec (s : SLR) (v : Vec) : Vec :=
@@ -381,7 +400,8 @@ def matmat (l : Laplacian) (x : Mat) : Mat :=
 /-- `_transpose` (repaired code): same operator with the attribute `laplacian` transposed -/
 def transpose (l : Laplacian) : Laplacian := { l with lap := l.lap.transpose }
 
-def astype (l : Laplacian) : Laplacian := l
+/-- `astype(dtype)` casts the attribute `laplacian` only (repaired code: on a copy) -/
+def astype (dt : CastTo) (l : Laplacian) : Laplacian := { l with lap := l.lap.cast dt }
 
 def dvec (l : Laplacian) : Vec :=
   match l.normDiag with
@@ -432,7 +452,8 @@ def rightDot (c : CoNeighbor) (m : Mat) : Except PyErr CoNeighbor := do
   let f ← c.forward.mul? m
   pure { c with forward := f }
 
-def astype (c : CoNeighbor) : CoNeighbor := c
+/-- `astype(dtype)` casts `backward` and `forward` (repaired code: on a copy) -/
+def astype (dt : CastTo) (c : CoNeighbor) : CoNeighbor := ⟨c.backward.cast dt, c.forward.cast dt⟩
 
 def dense (c : CoNeighbor) : Mat := c.backward.mul c.forward
 
@@ -547,7 +568,9 @@ def dot (o : Op) (v : Vec) : Except PyErr Vec :=
 
 /-- `operator.dot(X)` on a 2-d array: scipy (≥ 1.18) stacks `_matvec` of the columns -/
 def dotMat (o : Op) (x : Mat) : Except PyErr Mat :=
-  if x.nRow = o.nCol then .ok (Mat.ofCols o.nRow x.nCol fun k => o.matvec (x.col k)) else .error .valueError
+  if x.nRow ≠ o.nCol then .error .valueError
+  else if x.nCol = 0 then .error .valueError        -- `np.stack` of an empty list of columns
+  else .ok (Mat.ofCols o.nRow x.nCol fun k => o.matvec (x.col k))
 
 /-- a direct call `operator._matvec(X)` with a 2-d array (the 2-d branches of the code) -/
 def matvec2d : Op → Mat → Except PyErr Mat
@@ -587,7 +610,7 @@ def mul : Op → Rat → Except PyErr Op
 /-- `a + b` for two operators -/
 def add : Op → Op → Except PyErr Op
   | slr s, slr o => do pure (slr (← s.add o))
-  | slr _, _ => .error .attributeError       -- `other.sparse_mat`
+  /- every other pair (a SparseLR with another class included): scipy's `_SumLinearOperator` -/
   | a, b => if a.nRow = b.nRow ∧ a.nCol = b.nCol then .ok (gsum a b) else .error .valueError
 
 /-- `a - b` : `self.__add__(-other)` in both SparseLR and scipy -/
@@ -602,7 +625,31 @@ def transpose : Op → Except PyErr Op
   | lap l => .ok (lap l.transpose)
   | con c => .ok (con c.transpose)
   | pol p => do pure (pol (← p.transpose))
-  | _ => .error .unsupported
+  /- scipy wraps a combinator in `_TransposedLinearOperator`, whose product is `_rmatvec` of the combinator:
+     `A.rmatvec(x) + B.rmatvec(x)`, `alpha * A.rmatvec(x)`, and `rmatvec` of a class is the product of its own
+     transposed operator (`_adjoint` = `transpose()`, Normalizer: `_rmatvec`): the transposition is pushed to the leaves -/
+  | gsum a b => do pure (gsum (← a.transpose) (← b.transpose))
+  | gscaled a c => do pure (gscaled (← a.transpose) c)
+
+/-- `.H`: the class's own `_adjoint` (= `transpose()`; Normalizer: scipy's adjoint wrapper over `_rmatvec`), and for
+scipy's combinators `_adjoint` re-dispatches the arithmetic on the adjoints: `A.H + B.H`, `A.H * alpha` -/
+def adjoint : Op → Except PyErr Op
+  | gsum a b => do
+    let a' ← a.adjoint
+    let b' ← b.adjoint
+    a'.add b'
+  | gscaled a c => do
+    let a' ← a.adjoint
+    a'.mul c
+  | o => o.transpose
+
+/-- `operator.H.dot(v)` -/
+def hdot (o : Op) (v : Vec) : Except PyErr Vec := do
+  let h ← o.adjoint
+  h.dot v
+
+/-- `c * operator` (`__rmul__`): scipy's `_ScaledLinearOperator` for every class -/
+def rmul (c : Rat) (o : Op) : Except PyErr Op := .ok (gscaled o c)
 
 def addCsr : Op → Mat → Except PyErr Op
   | slr s, a => do pure (slr (← s.addCsr a))
@@ -622,10 +669,10 @@ def rightDot : Op → Mat → Except PyErr Op
   | con c, m => do pure (con (← c.rightDot m))
   | _, _ => .error .attributeError
 
-def astype : Op → Except PyErr Op
-  | slr s => .ok (slr s.astype)
-  | lap l => .ok (lap l.astype)
-  | con c => .ok (con c.astype)
+def astype (dt : CastTo) : Op → Except PyErr Op
+  | slr s => .ok (slr (s.astype dt))
+  | lap l => .ok (lap (l.astype dt))
+  | con c => .ok (con (c.astype dt))
   | _ => .error .attributeError
 
 def d2u : Op → Except PyErr Op
@@ -690,7 +737,8 @@ inductive OpExpr
   | transpose (e : OpExpr)
   | leftDot (m : Mat) (e : OpExpr)
   | rightDot (e : OpExpr) (m : Mat)
-  | astype (e : OpExpr)
+  | astype (e : OpExpr) (dt : CastTo)
+  | rmul (c : Rat) (e : OpExpr)
   | d2u (e : OpExpr)
   | b2d (e : OpExpr)
   | b2u (e : OpExpr)
@@ -703,8 +751,12 @@ namespace OpExpr
 def eval : OpExpr → Except PyErr Op
   | slr s ts => do pure (.slr (← SLR.init s ts))
   | regularizer a reg => do pure (.slr (← LinOp.regularizer a reg))
-  | normalizer a reg => .ok (.nrm (Normalizer.init a reg) false)
-  | laplacian a reg nz sq => do pure (.lap (← Laplacian.init a reg nz sq))
+  | normalizer a reg =>
+    -- without columns `matrix.mean()` is NaN: outside the model
+    if a.nCol = 0 then .error .unsupported else .ok (.nrm (Normalizer.init a reg) false)
+  | laplacian a reg nz sq =>
+    if a.nRow = 0 ∧ a.nCol = 0 then .error .unsupported
+    else do pure (.lap (← Laplacian.init a reg nz sq))
   | coneighbor a nz => do pure (.con (← CoNeighbor.init a nz))
   | polynome a cs => do pure (.pol (← Polynome.init a cs))
   | neg e => do (← e.eval).neg
@@ -722,7 +774,8 @@ def eval : OpExpr → Except PyErr Op
   | transpose e => do (← e.eval).transpose
   | leftDot m e => do Op.leftDot m (← e.eval)
   | rightDot e m => do (← e.eval).rightDot m
-  | astype e => do (← e.eval).astype
+  | astype e dt => do (← e.eval).astype dt
+  | rmul c e => do (← e.eval).rmul c
   | d2u e => do (← e.eval).d2u
   | b2d e => do (← e.eval).b2d
   | b2u e => do (← e.eval).b2u
@@ -756,7 +809,8 @@ inductive Stmt
   | subCsr (i : Nat) (a : Mat)
   | leftDot (m : Mat) (i : Nat)
   | rightDot (i : Nat) (m : Mat)
-  | astype (i : Nat)
+  | astype (i : Nat) (dt : CastTo)
+  | rmul (c : Rat) (i : Nat)
   | d2u (i : Nat)
   | b2d (i : Nat)
   | b2u (i : Nat)
@@ -789,7 +843,8 @@ def exec (env : List Op) : Stmt → Except PyErr Op
   | subCsr i a => do (← envGet env i).subCsr a
   | leftDot m i => do Op.leftDot m (← envGet env i)
   | rightDot i m => do (← envGet env i).rightDot m
-  | astype i => do (← envGet env i).astype
+  | astype i dt => do (← envGet env i).astype dt
+  | rmul c i => do (← envGet env i).rmul c
   | d2u i => do (← envGet env i).d2u
   | b2d i => do (← envGet env i).b2d
   | b2u i => do (← envGet env i).b2u
@@ -807,7 +862,8 @@ def unfold (trees : List OpExpr) : Stmt → Option OpExpr
   | subCsr i a => do pure (.subCsr (← trees[i]?) a)
   | leftDot m i => do pure (.leftDot m (← trees[i]?))
   | rightDot i m => do pure (.rightDot (← trees[i]?) m)
-  | astype i => do pure (.astype (← trees[i]?))
+  | astype i dt => do pure (.astype (← trees[i]?) dt)
+  | rmul c i => do pure (.rmul c (← trees[i]?))
   | d2u i => do pure (.d2u (← trees[i]?))
   | b2d i => do pure (.b2d (← trees[i]?))
   | b2u i => do pure (.b2u (← trees[i]?))
